@@ -30,8 +30,20 @@ def run1(solver, script, timeout):
     try:
         p = subprocess.run(cmd, capture_output=True, text=True, timeout=timeout + 5)
         out = p.stdout.strip()
-        first = out.split("\n")[0].strip() if out else ""
-        if first not in ("sat", "unsat", "unknown"):
+        first = ""
+        for ln in out.split("\n"):
+            ln = ln.strip()
+            if ln in ("sat", "unsat", "unknown"):
+                first = ln
+                break
+            if "(error" in ln or "rror:" in ln:
+                first = "error:" + out[:300].replace("\n", " ")
+                break
+        if first == "" and out:
+            first = out.split("\n")[0].strip()
+        if first.startswith("error:"):
+            pass
+        elif first not in ("sat", "unsat", "unknown"):
             if "timeout" in (out + p.stderr).lower() or "interrupted" in (out + p.stderr).lower():
                 first = "timeout"
             else:
@@ -218,7 +230,7 @@ class Verdict:
 
 def discharge_one(o, tier="quick"):
     v = Verdict(o)
-    t1, t2 = (6, 12) if tier == "quick" else (30, 60)
+    t1, t2 = (20, 20) if tier == "quick" else (60, 60)
     if o.expect == "site":
         v.status = "refuted"
         v.detail["site"] = "call site named in the contract no longer exists in the function"
